@@ -28,7 +28,7 @@ prop("C09", "exploration",
      "each run draws a chunker configuration (FixedSize / RollSum / BuzHash; window 1..256; min <w, =w, >w; filter bits 1..24; max up to >1 MiB in the thorough tier), "
      "a source (random, constant, periodic, block pool, zero runs, 2-3 symbol alphabet, text; lengths on the configuration's edges) and a read schedule "
      "(fragment sizes 1..n, Pending at any poll); the chunk list must equal the single-read chunk list, tile the input, respect min/max, and equal the "
-     "reference chunker that hashes every trailing window from its closed form. Non-trivial: the input produced at least two chunks; distinct: by trace hash "
+     "reference chunker that hashes every trailing window from its closed form. One run in three adds a source with hiccups: 1..3 reads at drawn positions fail with a transient error (EINTR, EAGAIN, timeout) and the source then goes on; a consumer that polls on after each error item must receive the same chunks, and the stream must not end before the input does. Non-trivial: the input produced at least two chunks; distinct: by trace hash "
      "(every read, its size, every Pending) combined with the chunk count.",
      {"quick": {"runs": 64000, "max_secs": 150}, "thorough": {"runs": 1600000, "max_secs": 900}},
      ["the BuzHash table/seed and RollSum constants are part of the definition (copied into the reference; pinned by bitar/tests/chunking.rs)"])
@@ -37,15 +37,15 @@ prop("C01", "exploration",
      "each run draws (source, chunker configuration, compression, hash length, buffered-chunks, metadata), a writer (bita compress from a file / from stdin, bitar create_archive), "
      "a cloner (bita clone local / HTTP, library clone local / HTTP) and, per command, a schedule of the blocking pool (eagerness 0/10/50/90/100 %, FIFO or drawn order), "
      "read fragmentation at the syscall seam / SimSource / stdin / HTTP body. One run in twelve is the fault-injecting configuration: a read of the source fails with EIO (drawn read call of the file, "
-     "drawn byte count on stdin / the library reader) and compress must not report success; one in fourteen fails a write of compress (ENOSPC/EIO/EDQUOT on the temporary file or the archive, biased to the last write): success only with a complete archive. One file input in twelve is a block device (stat size 0). Otherwise no faults. Oracle: every command succeeds; the independent decoder reads the archive, finds the true size and "
+     "drawn byte count on stdin / the library reader) and compress must not report success; one in fourteen fails a write of compress (ENOSPC/EIO/EDQUOT on the temporary file or the archive, biased to the last write; a third of them the library writer into a tokio::fs::File, whose anonymous O_TMPFILE temp file the seam names <anon-temp>): success only with a complete archive. One file input in twelve is a block device (stat size 0). Otherwise no faults. Oracle: every command succeeds; the independent decoder reads the archive, finds the true size and "
      "Blake2b-512 and unpacks it to the source; the clone output equals the source. Non-trivial: the source has at least two chunks; distinct: by trace hash (all scheduler decisions, reads, "
      "requests) combined with chunk count, writer and cloner.",
      {"quick": {"runs": 12000, "max_secs": 150}, "thorough": {"runs": 700000, "max_secs": 1200}},
-     ["bitar's temporary_file_override is never used (it cannot work: DESIGN.md O1)", "the anonymous temp file of create_archive is opened by the tempfile crate through raw syscalls and is not seen by the seam"])
+     ["bitar's temporary_file_override is never used (it cannot work: DESIGN.md O1)", "the anonymous temp file of create_archive (tempfile crate, O_TMPFILE on the temp directory) is seen by the seam as <anon-temp>; it lives in the real /tmp, outside the sandbox listing"])
 
 FAM = ("a drawn archive (as C01) plus drawn seeds (0..3: edits of the source -- insert/delete/replace/move/duplicate/truncate/append/swap --, the source itself, empty, unrelated, "
        "chunk-permuted), seed files and/or stdin in drawn order, a drawn prior output (absent / existing file / faked block device >= source; related, permuted, unrelated, shorter, longer), "
-       "--seed-output or not (a third of the in-place CLI runs also pass --force-create, which must change nothing), through bita clone (syscall seam) or the library flow of examples/local-cloner.rs (SimFile/SimSource), local or simulated HTTP (a quarter with a generous --http-timeout, a fifth with --http-header credentials that the server insists on for every request); a tenth of the seed files are block devices (stat size 0, content by reading), under drawn pool schedules and read/body fragmentation; no faults. ")
+       "--seed-output or not (a third of the in-place CLI runs also pass --force-create, which must change nothing), through bita clone (syscall seam) or the library flow of examples/local-cloner.rs (SimFile/SimSource), local or simulated HTTP (a quarter with a generous --http-timeout, a fifth with --http-header credentials that the server insists on for every request); a tenth of the seed files are block devices (stat size 0, content by reading), stdin seeds arrive with producer pauses (one read in 24 waits 1 ms .. 30 s of virtual time), under drawn pool schedules and read/body fragmentation; no faults. ")
 
 prop("C02", "exploration",
      FAM + "Oracle: the clone succeeds and the output is byte-identical to the source (regular files also have the source's length). Truncated-hash collisions between different chunks (only possible for hash length < 8) are recognised and exempted. "
@@ -72,21 +72,21 @@ prop("C13", "exploration",
      "Non-trivial: at least two chunks and a seed or in-place prior output; distinct: trace hash + shape (incl. number of writes).",
      {"quick": {"runs": 12000, "max_secs": 150}, "thorough": {"runs": 600000, "max_secs": 1200}})
 prop("C11", "exploration",
-     "C01's compress runs (CLI from file / stdin, library; all schedules; metadata maps incl. empty and binary values); one run in fourteen the input file grows while compress reads it (another process appends at a scheduled moment) and the archive is held against what was actually read. Oracle: the independent decoder checks magic, LE dictionary size, dictionary decodes, chunk-data offset == header length, "
+     "C01's compress runs (CLI from file / stdin, library; all schedules; metadata maps incl. empty and binary values); one run in fourteen the input file grows while compress reads it (another process appends at a scheduled moment) and the archive is held against what was actually read; one metadata file in eight has a stat size of 0 although it delivers data (a /proc file, a device); on stdin, one read in 24 is preceded by a pause of the producer of 1 ms .. 30 s of virtual time. Oracle: the independent decoder checks magic, LE dictionary size, dictionary decodes, chunk-data offset == header length, "
      "Blake2b-512 trailer, file length == end of the last stored chunk, descriptors == the unique chunks of the reference chunker's chunk list in order of first occurrence (hash prefix, size), stored back-to-back from 0, stored size <= source size, "
      "every payload decodes (raw iff sizes equal) to a chunk with that hash, rebuild order == the chunk sequence, recorded size/checksum/parameters/hash length/compression/metadata == requested; bitar's Archive accessors and bita info --metadata-key report the same. "
      "Non-trivial: at least two chunks; distinct: trace hash + (chunks, unique chunks, metadata entries).",
      {"quick": {"runs": 12000, "max_secs": 150}, "thorough": {"runs": 700000, "max_secs": 1200}})
 prop("C12", "exploration",
      "one (source, options) scenario is compressed 2..4 times by the CLI (file or stdin drawn each time) and 2..3 times by the library, each under an independently drawn pool schedule, buffered-chunks value in {1,2,3,8,64}, "
-     "verbosity and input fragmentation; a third of the library runs write to a tokio::fs::File and are judged by what is at the path when create_archive returns; one CLI run in five finds a stale, longer temporary chunk file of a killed earlier run under the name the first run was seen to use; one scenario in 25 keeps a chunk of hundreds of KiB open at the end of the input. Oracle: all archives of a writer are byte-identical. Non-trivial: the source is longer than one average chunk; distinct: trace hash + archive size + run counts.",
+     "verbosity and input fragmentation; a third of the library runs write to a tokio::fs::File and are judged by what is at the path when create_archive returns; one CLI run in five finds a stale, longer temporary chunk file of a killed earlier run under the name the first run was seen to use; one scenario in 25 keeps a chunk of hundreds of KiB open at the end of the input; one scenario in eight starts the same CLI command twice at once (two simulated processes on one executor, the second 0..400 scheduling steps behind): at most one may succeed and what it leaves is the archive of an undisturbed run; one zstd scenario in three is preceded by a library compression at another level in the same process, and no chunk of the later archive may be stored as that earlier level would encode it. Oracle: all archives of a writer are byte-identical. Non-trivial: the source is longer than one average chunk; distinct: trace hash + archive size + run counts.",
      {"quick": {"runs": 2500, "max_secs": 150}, "thorough": {"runs": 200000, "max_secs": 1200}})
 
 prop("C05", "fault_enumeration",
      "per run one clone scenario of the C02/C03 family through bita clone at the syscall seam (seeds, prior output, regular file or faked block device, local or HTTP). An uninterrupted execution counts W = write(2) calls on the output. "
      "Crash family (2/3 of runs): for EVERY k in 0..W (20 sampled values incl. 0 and W-1 when W > 20) the clone runs under a drawn pool schedule with process death at the k-th write, torn after a prefix drawn from {0, 1, mid, len-1, all}: "
      "user-space buffers and pending background writes are lost, the file as it is is the durable state; then 0..2 further crashed re-runs with --seed-output; then a fault-free, step-bounded bita clone --seed-output that must succeed and leave exactly the source. "
-     "Error family (1/3): the k-th write fails with ENOSPC/EIO, nothing or a short prefix written, INCLUDING the last write, with and without --verify-output: the run must not exit 0 unless the output is complete; the re-run completes. Legal short writes and EINTR must change nothing. "
+     "Error family (1/3): the k-th write fails with ENOSPC/EIO, nothing or a short prefix written, INCLUDING the last write, with and without --verify-output: the run must not exit 0 unless the output is complete; the re-run completes. Legal short writes and EINTR must change nothing; a failing final resize (ftruncate) must fail the run. Read-fault family (within the error family): one pread/read of the output during the in-place scan or re-ordering fails with EIO (CLI), or a drawn read of the simulated output fails / a short write is followed by EINTR (library flow): the run fails or the output is complete, never success with wrong bytes. "
      "Non-trivial: at least one fault fired and W >= 3; distinct: trace hash + (W, crash points, family, device, in-place).",
      {"quick": {"runs": 1200, "max_secs": 150}, "thorough": {"runs": 60000, "max_secs": 1500}},
      ["crash model: process death, not power loss -- what write(2) returned for survives, tokio's user-space buffer and not-yet-run background writes do not; bita never calls fsync and the property's quantifier is exactly 'k-th write not performed, fully performed or torn after any prefix'",
@@ -98,9 +98,9 @@ prop("C07", "exploration",
      {"quick": {"runs": 12000, "max_secs": 150}, "thorough": {"runs": 600000, "max_secs": 1200}})
 prop("C08", "fault_enumeration",
      "a random content, a drawn list of 1..10 ranges (adjacent runs, gaps, unordered, repeated/overlapping; sizes 1 B .. 70 KB, up to 3 MiB in the thorough tier) read through read_chunks or read_at. "
-     "Local: IoReader over a SimFile with drawn read fragmentation (1 byte .. whole), Pending at any poll (reads and seeks), early EOF at a drawn offset; a third of the readers have been used before (position anywhere), a sixth of the lists start at byte 0. HTTP: HttpReader against a server that is correct when it answers, with a failure script drawn per request "
+     "Local: IoReader over a SimFile with drawn read fragmentation (1 byte .. whole), Pending at any poll (reads and seeks), early EOF at a drawn offset, one run in six a drawn read failing with EINTR / EAGAIN / EIO (the reader reports it or delivers right bytes, never wrong ones); a third of the readers have been used before (position anywhere), a sixth of the lists start at byte 0. HTTP: HttpReader against a server that is correct when it answers, with a failure script drawn per request "
      "(refused connection; body cut after c bytes with c drawn from {uniform, 0, all, all-1, first 8}; early EOF; stall + request timeout), retry budget 0..3, retry delay {0,1,30} s of virtual time. "
-     "Oracle over the recorded history: items are a prefix of the requested ranges' bytes in order, then at most one error, then nothing; a run with f <= R failures completes, f > R or an early EOF yields an error; "
+     "After a body-level error the stream is polled up to three more times: it must not deliver anything but further errors or the end. Oracle over the recorded history: items are a prefix of the requested ranges' bytes in order, then at most one error, then nothing; a run with f <= R failures completes, f > R or an early EOF yields an error; "
      "every (re)request's Range starts at the first byte not yet delivered and ends at the run's end; retry delays elapse in virtual time; the run finishes within the step budget. "
      "Non-trivial: a retry was taken or at least two ranges; distinct: trace hash + (ranges, failures, fatal, single).",
      {"quick": {"runs": 160000, "max_secs": 150}, "thorough": {"runs": 4000000, "max_secs": 1200}},
@@ -108,17 +108,17 @@ prop("C08", "fault_enumeration",
 prop("C14", "exploration",
      "the grid {output absent, regular file, block device >= source, block device < source} x {--force-create, --seed-output, neither} x {valid archive (with or without a matching --verify-header), random bytes, empty file, bit flip in the header, "
      "truncated header, --verify-header mismatch} x {local, HTTP} for clone, and {output absent, present} x {--force-create or not} for compress, is enumerated by a drawn cell index (148 cells; the evidence lists how often each refusal kind occurred); "
-     "archive, prior content, schedules drawn; one clone in four has a --seed, which may be the existing output itself. Oracle for the four refusals the statement names: exit status non-zero; the output's bytes and length unchanged; no write / ftruncate / O_TRUNC on it at the syscall seam; for archive / header refusals the output path was never opened "
+     "archive, prior content, schedules drawn; one clone in four has a --seed, which may be the existing output itself; one compress in five meets 1..2 transient failures (ETIMEDOUT / ESTALE / EINTR / EAGAIN) on its first opens of the output path; one HTTP clone in four meets a server that refuses the first --http-retry-count + 1..2 requests and answers afterwards (a clone that must proceed may then fail; a refusal stands). Oracle for the four refusals the statement names: exit status non-zero; the output's bytes and length unchanged; no write / ftruncate / O_TRUNC on it at the syscall seam; for archive / header refusals the output path was never opened "
      "(hence not created). Cells that must proceed must succeed with a correct output. Non-trivial: every run; distinct: trace hash + cell.",
      {"quick": {"runs": 12000, "max_secs": 150}, "thorough": {"runs": 400000, "max_secs": 1200}},
      ["header bit flips avoid the upper five bytes of the dictionary-size field (they make the reader attempt a petabyte allocation: C15's finding, fatal to a worker)"])
 prop("C16", "exploration",
      "2/3 of runs: bita clone in all modes of the clone family (plain, seed files, stdin seed, in place, local, HTTP, +-verify-output, existing output with --force-create, faked block device) observed at the syscall seam: "
      "(one in eight with the existing output also named as a --seed, under its own or another spelling; one in ten with a second hard link on the existing output; one in sixteen into a directory that does not exist; init_log runs before each command, so a log sink that opens a file is seen too) every open with O_WRONLY/O_RDWR/O_CREAT/O_TRUNC/O_APPEND names the output path, no unlink/rename/mkdir, no truncate of another file, and the listing (names, sizes, Blake2) of the sandbox changed only at the output path. "
-     "1/3: bita compress (file / stdin, +-force, output names with and without extension, in a subdirectory, with bytes that are not valid UTF-8; one in five repeated with --force-create over a planted stale temporary file): only the archive and its '.tmp' sibling are opened for writing, only that temp file is removed, and a successful run leaves exactly one new file. "
+     "1/3: bita compress (file / stdin, +-force, output names with and without extension, in a subdirectory, with bytes that are not valid UTF-8; one in five repeated with --force-create over a planted stale temporary file or with an unlink of the temporary file failing with EPERM/EBUSY/EIO, one in three of the others simply run again with --force-create over their own result): only the archive and its '.tmp' sibling are opened for writing, only that temp file is removed, and a successful run leaves exactly one new file. "
      "Non-trivial: at least three file-system events; distinct: trace hash + shape.",
      {"quick": {"runs": 8000, "max_secs": 150}, "thorough": {"runs": 400000, "max_secs": 1200}},
-     ["files opened through raw syscalls (none in the CLI paths; the tempfile crate in bitar's library writer) would not be seen by the link-time seam"])
+     ["files opened through raw syscalls (none found: the CLI paths and the tempfile crate of bitar's library writer all go through libc) would not be seen by the link-time seam"])
 
 prop("C04", "fault_enumeration",
      "fault kind: corruption of stored bytes after creation, and lying servers. Mode A (1/3 of runs): a small archive (source <= 400 B, hash length >= 8, library writer) and EVERY single-bit flip (except the upper five bytes of the dictionary-size field) and EVERY truncation length of it "
@@ -180,7 +180,7 @@ text("C11", "deterministic simulation: archives written under seeded pool schedu
      "Trusted: RefFormat (hand-written protobuf codec), reference chunker, blake2, brotli-decompressor, zstd, lzma; real: bitar writer, CLI writer, bitar reader (accessors), info_cmd; stub: blocking pool, stdin.")
 text("C12", "deterministic simulation: the same compression repeated under independently seeded schedules, buffering levels and input deliveries; byte comparison",
      "Seeded exploration over schedules: from an infinitely fast to an infinitely slow blocking pool, FIFO or drawn completion order. Found F4 (schedule-dependent truncated archive) before it was fixed. Sampling, not proof.",
-     "Real: both writers, futures-util buffered(); port: tokio::fs::File; stub: blocking pool, stdin; the library's anonymous temp file is a real file outside the seam.")
+     "Real: both writers, futures-util buffered(); port: tokio::fs::File; stub: blocking pool, stdin; the library's anonymous temp file is a real unnamed file in /tmp, seen by the seam as <anon-temp>.")
 
 text("C05", "deterministic simulation with fault injection at the syscall seam: enumeration of crash points (k-th output write, torn prefix, lost write-behind state) and write errors, followed by bounded-liveness re-runs in place",
      "Fault enumeration per scenario (every write index for W <= 20, 20 sampled otherwise; five tear classes) times seeded exploration over scenarios and schedules. Found F6 (exit 0 after the last write failed) before it was fixed. Not exhaustive over tear bytes.", CLONE_NOTE)
